@@ -87,6 +87,7 @@ type ClientObs struct {
 	Chunked  bool     `json:"chunked"`
 	BodyLen  int      `json:"body_len"`
 	RLE      [][2]int `json:"rle"` // run-length encoding of the body bytes seen: [byte, count]
+	RLEOver  bool     `json:"rle_truncated,omitempty"`
 	End      string   `json:"end"` // clean | closed | reset | open | aborted | error
 	EndUs    int64    `json:"end_us"`
 	AbortUs  int64    `json:"abort_us"`
@@ -282,11 +283,11 @@ func (b *Backend) play(c net.Conn, sc *Scenario, t0 time.Time, acks []chan struc
 	last = time.Now()
 	ackWait := func(k int) { // after chunk k was written
 		co := &obs.Chunks[k]
+		// (a torn upstream connection does not end the wait: what was already relayed may still be on its way to the client)
 		select {
 		case <-acks[k]:
 			co.Acked, co.AckUs = true, us(t0)
 		case <-time.After(time.Duration(sc.AckMs) * time.Millisecond):
-		case <-torn:
 		}
 	}
 	for k, s := range sc.Steps {
@@ -310,6 +311,13 @@ func (b *Backend) play(c net.Conn, sc *Scenario, t0 time.Time, acks []chan struc
 		obs.Chunks[k].SentUs = us(t0)
 		if err != nil {
 			finish("torn")
+			return
+		}
+		if sc.Framing == "cl" && sc.Ending == "eof" && k == len(sc.Steps)-1 {
+			// Content-Length framing: the last announced byte IS the end of the response
+			obs.EndKind, obs.EndUs = "eof", obs.Chunks[k].SentUs
+			ackWait(k)
+			obs.TornUs = atomic.LoadInt64(&tornUs)
 			return
 		}
 		ackWait(k)
@@ -338,10 +346,15 @@ func (b *Backend) play(c net.Conn, sc *Scenario, t0 time.Time, acks []chan struc
 
 type rle struct {
 	runs [][2]int
+	over bool
 }
 
 func (r *rle) add(p []byte) {
 	for _, x := range p {
+		if len(r.runs) >= 512 { // not one of ours (an error page, say): keep the head only
+			r.over = true
+			return
+		}
 		if n := len(r.runs); n > 0 && r.runs[n-1][0] == int(x) {
 			r.runs[n-1][1]++
 		} else {
@@ -532,6 +545,7 @@ func RunClient(addr, target string, sc *Scenario, t0 time.Time, acks []chan stru
 		}
 	}
 	o.RLE = enc.runs
+	o.RLEOver = enc.over
 	if o.RLE == nil {
 		o.RLE = [][2]int{}
 	}
@@ -737,8 +751,10 @@ func RunBatch(scs []*Scenario) ([]*Obs, Leak) {
 	lk.SettleMs = time.Since(t).Milliseconds()
 	for _, r := range rigs {
 		if r != nil {
-			r.Stop()
+			wg.Add(1)
+			go func(r *Rig) { defer wg.Done(); r.Stop() }(r)
 		}
 	}
+	wg.Wait()
 	return out, lk
 }
